@@ -3,6 +3,7 @@ package main
 import (
 	"encoding/json"
 	"fmt"
+	"reflect"
 	"sort"
 	"strings"
 
@@ -223,7 +224,11 @@ func judgeFlatten(before, after T, positions map[string]bool) string {
 	return ""
 }
 
+// what FlattenProperties handed back on the last call (its other siblings return their own argument type)
+var c16Returned ap.Item
+
 func callFlatten(fn string, it ap.Item) {
+	c16Returned = it
 	switch fn {
 	case "FlattenActivityProperties":
 		ap.FlattenActivityProperties(it.(*ap.Activity))
@@ -234,7 +239,7 @@ func callFlatten(fn string, it ap.Item) {
 	case "FlattenObjectProperties":
 		ap.FlattenObjectProperties(it.(*ap.Object))
 	case "FlattenProperties":
-		ap.FlattenProperties(it)
+		c16Returned = ap.FlattenProperties(it)
 	default:
 		panic("fn")
 	}
@@ -246,6 +251,15 @@ func runFlatten(fn string, tr T) (res interface{}, viol string) {
 		return "panic", "panic: " + msg
 	}
 	after := dumpItem(it).(T)
+	// the value handed back is the value that was given (same type, same properties): a pointer is flattened in place
+	if fn == "FlattenProperties" && reflect.ValueOf(it).Kind() == reflect.Ptr {
+		if reflect.TypeOf(c16Returned) != reflect.TypeOf(it) {
+			return after, fmt.Sprintf("FlattenProperties was given a %T and handed back a %T", it, c16Returned)
+		}
+		if back := dumpItem(c16Returned); !treeEqual(back, after) {
+			return after, "FlattenProperties handed back a value that differs from the flattened original: " + mustJSONs(back) + " vs " + mustJSONs(after)
+		}
+	}
 	typ := ""
 	if f, ok := tr["f"].(T); ok {
 		if t, ok := f["Type"].(T); ok {
@@ -291,6 +305,13 @@ func c16Spice(r *RNG, tr T) {
 			}
 		case 2:
 			l = append([]interface{}{nil}, l...)
+		case 4:
+			// a mention without an id of its own whose href is the id of another entry: two different things
+			if id := treeID(l[r.Intn(len(l))]); id != "" {
+				m := T{"t": "Link", "ptr": true, "f": T{"Type": T{"s": "Mention"}, "Href": T{"s": id}, "Rel": T{"s": "me"}}}
+				pos := r.Intn(len(l) + 1)
+				l = append(l[:pos:pos], append([]interface{}{m}, l[pos:]...)...)
+			}
 		case 3:
 			// the same addressee in another addressing list as well (as its IRI or in the same form)
 			other := names[r.Intn(len(names))]
